@@ -45,6 +45,8 @@ hmod!(pub(crate) c07, "c07.rs");
 #[cfg(all(not(feature = "shuttle"), feature = "descriptive-gate"))]
 hmod!(pub(crate) c07b, "c07b.rs");
 #[cfg(all(not(feature = "shuttle"), feature = "descriptive-gate"))]
+hmod!(pub(crate) c07c, "c07c.rs");
+#[cfg(all(not(feature = "shuttle"), feature = "descriptive-gate"))]
 hmod!(pub(crate) c08, "c08.rs");
 #[cfg(all(not(feature = "shuttle"), feature = "descriptive-gate"))]
 hmod!(pub(crate) c08b, "c08b.rs");
